@@ -13,6 +13,7 @@ import (
 var casesFile string
 
 type traceWriter struct {
+	grp        string
 	prefix     string
 	cases      int
 	nontrivial map[string]bool
@@ -65,6 +66,7 @@ func (t *traceWriter) emitCase(c *Case, pair string, allOrders bool) []Ret {
 		c.ID = t.prefix + c.ID
 	}
 	t.cases++
+	strStyle = t.cases % 2
 	defer func() {
 		// non-trivial: the call reported an issue or wrote the destination; distinct by schema+input+mode
 		if t.nontrivial == nil {
@@ -125,7 +127,11 @@ func (t *traceWriter) emitCase(c *Case, pair string, allOrders bool) []Ret {
 		id := fmt.Sprintf("%s/%d", c.ID, oi)
 		cc := *c
 		cc.ID = id
-		t.line(CallLine{E: "call", ID: id, Grp: c.ID, Pair: pair, Case: &cc, Order: ret.Order})
+		grp := c.ID
+		if t.grp != "" {
+			grp = t.grp
+		}
+		t.line(CallLine{E: "call", ID: id, Grp: grp, Pair: pair, Case: &cc, Order: ret.Order})
 		for _, e := range evs {
 			t.line(e)
 		}
